@@ -4,6 +4,7 @@ import json
 import socket
 
 import gen
+import chainhist
 import vlib
 from vlib import Recorder, Report, b2l, call, exc_info, le, le_signed
 
@@ -237,7 +238,8 @@ def run(tier):
         x["_cost"] = 400 + 8 * len(x["in"].get("bytes", [])) + (20 * len(json.dumps(x["in"].get("msg", ""))) if x["op"] == "p2p.frame" else 0)
     mm = vlib.validate("Trace_P2P", recs)
     rep.apply_mismatches(recs, mm)
-    rep.cov["evaluations"] = len(recs)
+    nchain = chainhist.run_for(rep, "C18", tier)
+    rep.cov["evaluations"] = nchain + len(recs)
     rep.cov["traces_validated_against_impl"] = len({x["tid"] for x in recs})
     rep.cov["message_types_framed"] = sorted({x["in"]["msg"]["t"] for x in recs if x["op"] == "p2p.frame"})
     rep.cov["read_outcomes"] = {}
